@@ -174,6 +174,42 @@ def rule_semrules(crate, dispositions):
         report("TYPENAMES:instantiate_for_printing:fresh-names", crate.file_of(ifp), ifp["line"], uses_ns,
                "generated type-parameter names avoid the names in use",
                "type-parameter names A, B, … are generated without consulting the dimensions, structs and user type parameters already in use: the printed signature can name the wrong type and is rejected when fed back.")
+    if ifp is not None:
+        # the user's names are handed out POSITIONALLY (`tp.map(TypeVariable::new)`) to $gen_0, $gen_1, …, whose order
+        # is the (sorted) order in which generalisation numbered the variables, not the declaration order
+        positional = any(x.get("k") == "MethodCall" and x["name"] == "map" and any(y.get("k") == "Path" and str(y["res"].get("path", "")).endswith("TypeVariable::new") for y in walk(x)) for x in walk(ifp["body"]))
+        ordered = any(x.get("k") == "MethodCall" and x["name"] in ("sort", "sort_by", "sort_by_key", "sorted", "position", "find") for x in walk(ifp["body"]))
+        report("TYPENAMES:instantiate_for_printing:positional-names", crate.file_of(ifp), ifp["line"], not (positional and not ordered),
+               "declared type-parameter names are matched with the variables they belong to",
+               "the declared type-parameter names are assigned to the quantified variables by POSITION, but the variables are numbered in sorted order by generalisation: with `<T: Dim, D: Dim>` the names are swapped and the printed signature states a wrong type.")
+    urt = crate.find_fn("typed_ast::Statement::update_readable_types", required=False)
+    if urt is not None:
+        darm = _find_arm(crate, urt, "typed_ast::Statement", "DefineVariable")
+        if darm is not None:
+            quant = False
+            for c in walk(darm["body"]):
+                if c.get("k") in ("Call", "MethodCall") and (callee(c) or "").endswith("create_readable_type") and c.get("args"):
+                    last = peel(c["args"][-1])
+                    if last.get("k") == "Lit" and last["lit"].get("lk") == "bool" and last["lit"]["v"] in (True, "true"):
+                        quant = True
+            uf, ul = crate.loc(urt, darm["pat"])
+            report("TYPENAMES:let:forall-in-echo", uf, ul, not quant,
+                   "the readable type of a variable is a type expression",
+                   "the readable type of a `let` is rendered WITH quantifiers (`forall A. List<A>`), and the statement printer writes it as the annotation of the echoed definition; there is no such syntax.")
+    # ---- DTSHAPE: the date-time special case of `+`/`-` is selected by comparing operand types BEFORE constraint solving
+    barm_ = _find_arm(crate, ee, "ast::Expression", "BinaryOperator")
+    if barm_ is not None:
+        pre = []
+        for x in walk(barm_["body"]):
+            if x.get("k") == "Binary" and str(x.get("op")) in ("==", "!="):
+                for side in (x["l"], x["r"]):
+                    v = ctor_variant(peel_refs(side)) if peel_refs(side).get("k") in ("Path", "Call") else None
+                    if v and v[0].endswith("typed_ast::Type") and v[1] == "DateTime":
+                        pre.append(x)
+        df, dl = crate.loc(ee, pre[0]) if pre else crate.loc(ee, barm_["pat"])
+        report("DTSHAPE:elaborate_expression:datetime-branch-before-solving", df, dl, not pre,
+               "date-time arithmetic is typed by constraints",
+               "whether `+`/`-`/`==` take the date-time branch is decided by `operand_type == Type::DateTime` on the types as they are BEFORE constraint solving: an operand that is the result of a generic function is still a type variable there, so `t + abs(-1 h)`, `head([t]) + 1 h` or `t == t` are rejected although `let d = abs(-1 h)` / `t + d` is accepted.")
     # ---- STRUCTSUBST
     tfa = crate.find_fn("typechecker::TypeChecker::type_from_annotation")
     app = [c for c in walk(tfa["body"]) if c.get("k") == "MethodCall" and c["name"] == "append" and "Substitution" in crate.ty(peel_refs(c["recv"]))]
